@@ -504,12 +504,16 @@ class Sim:
                 return ("liberr", name)
             fr = lib_frame(e)
             where = fr[0] if fr else "?"
-            container = where in ("iwork.py", "iwafile.py") or (
-                where == "containers.py" and fr[1] in ("__init__", "store_object", "store_file", "allowed_format", "allowed_version"))
+            # container loading = unzipping, un-framing, decoding and the object store the archives are loaded into
+            # (a lookup of an object whose archive could not be un-framed surfaces in ObjectStore.__getitem__)
+            container = where in ("iwork.py", "iwafile.py", "containers.py")
             if container:
                 key = {"exc": name, "in": f"{fr[0]}:{fr[1]}"}
                 self.violation("C17.escape", key, f"opening {context}: {name}: {e} escaped from {fr[0]}:{fr[1]}")
+            # an archive that decodes (possibly into the wrong message type) but no longer makes sense to the model
+            # is beyond "loading the container": counted, not judged
             self.probe("c17_escape_outside_container_" + name)
+            self.probe(f"c17_outside_{name}_{fr[0] if fr else '?'}:{fr[1] if fr else '?'}")
             return ("escape_outside", name)
         return ("opened", doc)
 
